@@ -626,4 +626,140 @@ example : tagEvs 3 2 true [(0, 5), (1, 0), (2, -3), (0, 7)] = [(0, ⟨3, 2⟩), 
     ∧ sampleDelay [4, 5, 6] 4 = some 5 := by
   decide +kernel
 
+/-! ### calendar: the life-cycle depends on relative days only -/
+
+/-- the event schedule of a period that starts `k` days later -/
+def shiftEv (k : Nat) (ev : Nat → List TagEv) : Nat → List TagEv :=
+  fun d => if d < k then [] else ev (d - k)
+
+/-- a state with its two recorded dates moved by `k` days -/
+def shiftState (k : Int) (s : State) : State :=
+  { s with endDate := s.endDate.map (· + k), initDetect := s.initDetect.map (· + k) }
+
+def shiftP (k : Nat) (p : Params) : Params := { p with start := p.start + k }
+
+private theorem b4_shift (p : Params) (h0 : 0 ≤ p.start) (k : Nat) : b4 (shiftP k p) = 0 ∧ b4 p = 0 := by
+  unfold b4 shiftP; simp only; constructor <;> split <;> omega
+
+private theorem activate_shift (p : Params) (k : Nat) (n : Int) (s : State) :
+    activate (shiftP k p) (n + k) (shiftState k s) = shiftState k (activate p n s) := by
+  unfold activate shiftState shiftP
+  simp only
+  have : (p.start + (k : Int) ≤ n + k) ↔ p.start ≤ n := by omega
+  by_cases h : s.status = .inactive ∧ p.start ≤ n
+  · have h' : s.status = .inactive ∧ p.start + (k : Int) ≤ n + k := ⟨h.1, this.2 h.2⟩
+    simp [h]
+  · have h' : ¬ (s.status = .inactive ∧ p.start + (k : Int) ≤ n + k) := fun x => h ⟨x.1, this.1 x.2⟩
+    simp [h, h']
+
+private theorem tag_shift (p : Params) (k : Nat) (n : Int) (e : TagEv) (s : State) :
+    tag (shiftP k p) (n + k) e (shiftState k s) = shiftState k (tag p n e s) := by
+  unfold tag detectRec shiftState shiftP
+  simp only
+  by_cases h1 : s.status = .active <;> by_cases h2 : s.tagged = true <;> by_cases h3 : s.initDetectBy = none <;>
+    simp [h1, h2, h3]
+
+private theorem tags_shift (p : Params) (k : Nat) (n : Int) (evs : List TagEv) (s : State) :
+    evs.foldl (fun s e => tag (shiftP k p) (n + k) e s) (shiftState k s)
+      = shiftState k (evs.foldl (fun s e => tag p n e s) s) := by
+  induction evs generalizing s with
+  | nil => rfl
+  | cons e evs ih => simp only [List.foldl_cons]; rw [tag_shift, ih]
+
+private theorem toggle_shift (p : Params) (k : Nat) (s : State) :
+    toggle (shiftP k p) (shiftState k s) = shiftState k (toggle p s) := by
+  unfold toggle shiftState shiftP
+  simp only
+  split
+  · rfl
+  · split
+    · split <;> rfl
+    · split <;> rfl
+
+private theorem update_shift (p : Params) (h0 : 0 ≤ p.start) (k : Nat) (s : State) :
+    update (shiftP k p) (shiftState k s) = shiftState k (update p s) := by
+  have hb := b4_shift p h0 k
+  unfold update endedAt
+  rw [hb.1, hb.2]
+  unfold toggle shiftState shiftP
+  simp only [Int.add_zero]
+  cases s with
+  | mk status activeDays tagged dst trd by_ endDate initDetect initDetectBy emitting daysEmitting onCount offCount =>
+    simp only
+    cases hr : p.repairable <;> cases hi : p.intermittent <;> cases tagged <;> cases emitting <;>
+      simp only [hr, hi, Bool.false_eq_true, if_false, if_true, ne_eq, not_true_eq_false, not_false_eq_true, true_and, false_and] <;>
+      (repeat' split) <;> simp_all <;> omega
+
+private theorem day_shift (p : Params) (h0 : 0 ≤ p.start) (k : Nat) (n : Int) (evs : List TagEv) (s : State) :
+    day (shiftP k p) (n + k) evs (shiftState k s) = shiftState k (day p n evs s) := by
+  unfold day
+  rw [activate_shift, tags_shift, update_shift p h0]
+
+/-- before the shifted period's leak can start nothing happens -/
+private theorem run_shift_pre (p : Params) (h0 : 0 ≤ p.start) (ev : Nat → List TagEv) (k j : Nat) (hj : j ≤ k) :
+    run (shiftP k p) (shiftEv k ev) j = init := by
+  induction j with
+  | zero => rfl
+  | succ j ih =>
+    have hlt : j < k := by omega
+    simp only [run]
+    rw [ih (by omega)]
+    have he : shiftEv k ev j = [] := by unfold shiftEv; simp [hlt]
+    rw [he]
+    unfold day activate update shiftP init
+    simp only [List.foldl_nil]
+    have : ¬ (p.start + (k : Int) ≤ (j : Int)) := by omega
+    simp [this]
+
+/-- **the life-cycle is calendar-free**: the same leak (start relative to the first simulated day, same
+parameters) facing the same tag requests in a period that begins `k` days later goes through exactly the
+same states; only its two recorded dates (end date, first detection) move by `k` days.  In particular a
+period shifted by a whole year, across a leap day or New Year, changes no day count, no status, no
+mitigation. -/
+theorem run_shift (p : Params) (h0 : 0 ≤ p.start) (ev : Nat → List TagEv) (k N : Nat) :
+    run (shiftP k p) (shiftEv k ev) (N + k) = shiftState k (run p ev N) := by
+  induction N with
+  | zero =>
+    rw [Nat.zero_add, run_shift_pre p h0 ev k k (Nat.le_refl k)]
+    rfl
+  | succ N ih =>
+    have e : N + 1 + k = (N + k) + 1 := by omega
+    rw [e]
+    simp only [run]
+    rw [ih]
+    have he : shiftEv k ev (N + k) = ev N := by
+      unfold shiftEv
+      have : ¬ (N + k < k) := by omega
+      simp [this]
+    rw [he]
+    have hc : ((N + k : Nat) : Int) = (N : Int) + (k : Int) := by push_cast; rfl
+    rw [hc]
+    exact day_shift p h0 k N (ev N) _
+
+/-- what the records report is the same in the shifted period -/
+theorem C04_period_shift (p : Params) (h0 : 0 ≤ p.start) (ev : Nat → List TagEv) (k N : Nat) :
+    let s' := run (shiftP k p) (shiftEv k ev) (N + k)
+    let s := run p ev N
+    s'.status = s.status ∧ s'.activeDays = s.activeDays ∧ s'.by_ = s.by_ ∧ s'.tagged = s.tagged ∧
+    emitDays (shiftP k p) s' = emitDays p s ∧
+    s'.endDate = s.endDate.map (· + (k : Int)) ∧ s'.initDetect = s.initDetect.map (· + (k : Int)) ∧
+    mitDays (shiftP k p) s' (summaryEndArg (N + k)) = mitDays p s (summaryEndArg N) := by
+  simp only
+  rw [run_shift p h0 ev k N]
+  refine ⟨rfl, rfl, rfl, rfl, rfl, rfl, rfl, ?_⟩
+  have hb := b4_shift p h0 k
+  unfold mitDays summaryEndArg
+  rw [hb.1, hb.2]
+  unfold shiftState shiftP
+  simp only
+  have : p.start + (k : Int) + p.nrd - ((N + k : Nat) : Int) = p.start + p.nrd - (N : Int) := by push_cast; omega
+  rw [this]
+
+example :
+    let p : Params := { start := 1, nrd := 30, repairDelay := 2, repairable := true,
+                        intermittent := false, activeDur := 1, inactiveDur := 0 }
+    let ev : Nat → List TagEv := fun d => if d = 3 then [{ company := 2, trd := 1 }] else []
+    (run (shiftP 5 p) (shiftEv 5 ev) 15).endDate = some 11 ∧ (run p ev 10).endDate = some 6 := by
+  decide +kernel
+
 end LdarModel.Emission
